@@ -446,7 +446,7 @@ func timeoutArith(c *core.Ctx) {
 		c.Unresolved("connect/timeout-sites", "reader=%v writer=%v of %s not found", reader != nil, writer != nil, connectConst.Name())
 		return
 	}
-	maxLenAccepted := func(fd *ast.FuncDecl, target ast.Node, strObj types.Object) (int64, bool) {
+	maxLenAccepted := func(fd *ast.FuncDecl, target ast.Node, strKey string) (int64, bool) {
 		d, tr := astx.PathConditions(info, fd.Body, target)
 		if tr || len(d) == 0 {
 			return 0, false
@@ -455,7 +455,7 @@ func timeoutArith(c *core.Ctx) {
 		for n := int64(1); n <= 25; n++ {
 			env := astx.Env{Int: func(e ast.Expr) (int64, bool) {
 				if call, ok := e.(*ast.CallExpr); ok && len(call.Args) == 1 {
-					if b, ok := astx.Callee(info, call).(*types.Builtin); ok && b.Name() == "len" && astx.ObjOf(info, call.Args[0]) == strObj {
+					if b, ok := astx.Callee(info, call).(*types.Builtin); ok && b.Name() == "len" && astx.CanonKey(info, astx.Unparen(call.Args[0])) == strKey {
 						return n, true
 					}
 				}
@@ -465,7 +465,7 @@ func timeoutArith(c *core.Ctx) {
 				has := false
 				ast.Inspect(cd.Expr, func(x ast.Node) bool {
 					if call, ok := x.(*ast.CallExpr); ok && len(call.Args) == 1 {
-						if b, ok := astx.Callee(info, call).(*types.Builtin); ok && b.Name() == "len" && astx.ObjOf(info, call.Args[0]) == strObj {
+						if b, ok := astx.Callee(info, call).(*types.Builtin); ok && b.Name() == "len" && astx.CanonKey(info, astx.Unparen(call.Args[0])) == strKey {
 							has = true
 						}
 					}
@@ -485,16 +485,17 @@ func timeoutArith(c *core.Ctx) {
 	}
 	// reader
 	var rParse *ast.CallExpr
-	var rStr types.Object
+	rStr := ""
 	for _, call := range astx.Calls(reader.Body) {
 		if astx.IsPkgFunc(astx.Callee(info, call), "strconv", "ParseInt") || astx.IsPkgFunc(astx.Callee(info, call), "strconv", "ParseUint") {
 			rParse = call
-			rStr = astx.ObjOf(info, call.Args[0])
+			// the string being parsed: a variable, or the header read itself where it is written in place
+			rStr = astx.CanonKey(info, astx.Unparen(call.Args[0]))
 		}
 	}
 	// writer
 	var wAssign ast.Node
-	var wStr types.Object
+	wStr := ""
 	ast.Inspect(writer.Body, func(n ast.Node) bool {
 		if as, ok := n.(*ast.AssignStmt); ok {
 			for i, l := range as.Lhs {
@@ -503,7 +504,7 @@ func timeoutArith(c *core.Ctx) {
 					ast.Inspect(as.Rhs[i], func(x ast.Node) bool {
 						if id, ok := x.(*ast.Ident); ok {
 							if v, ok := info.Uses[id].(*types.Var); ok && types.Identical(v.Type(), types.Typ[types.String]) {
-								wStr = v
+								wStr = astx.CanonKey(info, id)
 							}
 						}
 						return true
@@ -513,7 +514,7 @@ func timeoutArith(c *core.Ctx) {
 		}
 		return true
 	})
-	if rParse == nil || rStr == nil || wAssign == nil || wStr == nil {
+	if rParse == nil || rStr == "" || wAssign == nil || wStr == "" {
 		c.Undecided("connect/digit-limits", reader.Pos(), "reader parse (%v) / writer assignment (%v) not identified", rParse != nil, wAssign != nil)
 		return
 	}
@@ -757,6 +758,18 @@ func timeoutHandler(c *core.Ctx) {
 				// d: the parsed value, unchanged: either the variable bound to the parser's result,
 				// or Duration(parsed) * constant unit
 				d := astx.Unparen(wt.Args[1])
+				// a variable that received the value earlier on this path (parse phase and act phase split)
+				for depth := 0; depth < 3; depth++ {
+					obj := astx.ObjOf(info, d)
+					if obj == nil {
+						break
+					}
+					rhs := s.LastAssigned(info, obj)
+					if rhs == nil {
+						break
+					}
+					d = astx.Unparen(rhs)
+				}
 				okD := false
 				if obj := astx.ObjOf(info, d); obj != nil {
 					// bound to result 0 of a first-party parse function
